@@ -132,8 +132,9 @@ ResultFor(r) ==
 AcceptRet(r, res) ==
     /\ phase[r] \in {"running", "closing", "closed"} /\ res \in ResultFor(r)
     /\ (r = 1 => Triggered /\ \A p \in Payloads : Settled(p))
-    \* the failure / interrupt path goes through CloseBegin .. CloseEnd
-    /\ (r = 1 /\ phase[r] = "running") => (Failed = {} /\ Kbd = {} /\ ~sigint)
+    \* (a failure / interrupt normally goes through CloseBegin .. CloseEnd; one that arrives
+    \*  after a shutdown() has already stopped the runners does not)
+    /\ (r = 1 /\ phase[r] = "running") => (shut # "none" \/ (Failed = {} /\ Kbd = {} /\ ~sigint))
     /\ phase[r] # "closing"
     /\ phase' = [phase EXCEPT ![r] = "ended"]
     /\ result' = [result EXCEPT ![r] = res]
@@ -143,11 +144,15 @@ AcceptRet(r, res) ==
 SigintSend == /\ AllowSigint /\ phase[1] = "running" /\ ~sigint
               /\ sigint' = TRUE
               /\ UNCHANGED <<phase, guard, pst, starts, endhow, cleanleft, adoptret, shut, result, xst, h>>
-ShutdownCall == /\ AllowShutdown /\ phase[1] = "running" /\ shut = "none"
+\* shutdown() may be called again after it has returned (also after accept() has ended): it
+\* then has nothing to do and returns
+ShutdownCall == /\ AllowShutdown
+                /\ \/ shut = "none" /\ phase[1] = "running"
+                   \/ shut = "returned" /\ phase[1] = "ended"
                 /\ shut' = "called"
                 /\ UNCHANGED <<phase, guard, pst, starts, endhow, cleanleft, adoptret, sigint, result, xst, h>>
 \* shutdown() returns once the runners have been told to stop (it does not wait for accept())
-ShutdownRet == /\ shut = "called"
+ShutdownRet == /\ shut \in {"called", "returned"}
                /\ shut' = "returned"
                /\ UNCHANGED <<phase, guard, pst, starts, endhow, cleanleft, adoptret, sigint, result, xst, h>>
 
